@@ -2,6 +2,7 @@
     Only statements, closed by [exact], with [Print Assumptions] beneath. *)
 Require Import Coq.Strings.String.
 Require Import Sedpack.Model.Base Sedpack.Generated.GenCodec Sedpack.Model.Codec Sedpack.Proofs.CodecProofs.
+Require Import Sedpack.Generated.GenNpz Sedpack.Model.Npz Sedpack.Proofs.NpzProofs.
 Open Scope list_scope.
 Open Scope Z_scope.
 
@@ -57,6 +58,25 @@ Print Assumptions C01_tfrec_widen_exact.
 Theorem C01_codec_pairs_agree : forall e, List.In e compress_table -> List.In e decompress_table.
 Proof. exact codec_pairs_agree. Qed.
 Print Assumptions C01_codec_pairs_agree.
+
+(** npz, fixed-width attributes: np.copy per value, one stacked array per attribute, example i = element i along the leading axis —
+    every element of every example comes back, for every shape, every number of examples, every array function (memory layout). *)
+Theorem C01_npz_fixed_roundtrip : forall shape (vals : list (list nat -> Z)) i idx, (i < length vals)%nat -> in_range shape idx ->
+  npz_read shape (npz_stack shape vals) i idx = nth i vals (fun _ => 0) idx.
+Proof. exact npz_fixed_roundtrip. Qed.
+Print Assumptions C01_npz_fixed_roundtrip.
+
+(** npz, bytes / str attributes (NumPy S / U arrays): what comes back is the value without its trailing NULs, so a value survives
+    exactly when it does not end in NUL ... *)
+Theorem C01_npz_str_exact_iff : forall vals i, (i < length vals)%nat ->
+  (npz_read_str (npz_stack_str vals) i = nth i vals [] <-> last (nth i vals []) 1 <> 0).
+Proof. exact npz_str_exact_iff. Qed.
+Print Assumptions C01_npz_str_exact_iff.
+
+(** ... and the unrestricted round-trip statement is false for this format (finding F11, witness b"A\0"; replayed on the library by the check). *)
+Theorem C01_npz_str_roundtrip_refuted : exists vals i, (i < length vals)%nat /\ npz_read_str (npz_stack_str vals) i <> nth i vals [].
+Proof. exact npz_str_roundtrip_refuted. Qed.
+Print Assumptions C01_npz_str_roundtrip_refuted.
 
 (** non-vacuity: a 2x3 array of int16 bit patterns incl. the sign bit, presented in any layout, on both machine byte orders *)
 Theorem C01_nonvacuous :
